@@ -228,9 +228,13 @@ class Slice(NullCell):
             return self.to_cell()
         if self.load_bit():
             from .hashmap.parse import parse_hashmap_aug
-            return parse_hashmap_aug(self.load_ref().begin_parse(), key_length, x_deserializer, y_deserializer)
+            result = parse_hashmap_aug(self.load_ref().begin_parse(), key_length, x_deserializer, y_deserializer)
         else:
-            return {}, [self]  # extra
+            result = {}, [self.copy()]  # extra
+        if y_deserializer is not None:
+            # ahme_empty$0 extra:Y / ahme_root$1 root:^(HashmapAug n X Y) extra:Y - the root extra belongs to the HashmapAugE
+            y_deserializer(self)
+        return result
 
     def preload_dict(self, key_length: int, key_deserializer: typing.Callable = None,
                      value_deserializer: typing.Callable = None):
